@@ -264,6 +264,9 @@ func grammarReplay(c *core.Ctx, path string, gb *GrammarBind) int {
 
 // values with lists nested at every position, after earlier lists of the same document
 var nestedListQueryTexts = []string{
+	// empty lists between their delimiters (none is derivable), also with only ignored tokens inside
+	`fragment F() on T { a }`, `query Q() { a }`, `{ a() }`, `{ a @d() }`, `query Q($v: Int @d()) { a }`, `fragment F( , ) on T { a }`, "{ ...F } fragment F ( # nothing\n ) on T @d { a }",
+	`{ a { } }`, `{ }`, `query Q { }`, `{ a(b: {}) }`, `{ a(b: []) }`, `{ a(b: [,]) }`,
 	// the directives of a fragment definition are not constant: variables may stand in them, directly and nested
 	`fragment F on T @d(a: $v) { x }`, `fragment F on T @d(a: [1, {b: $v}]) @e(c: {k: [$w]}) { x }`, `fragment F($a: Int) on T @d(a: $a) { x @e(b: $a) }`,
 	// type references with non-null at every level
